@@ -221,6 +221,9 @@ def cache_type(method: Method) -> Method:
     @wraps(method)
     def wrapper(self: "SchemaBuilder", *args, **kwargs):
         factory = method(self, *args, **kwargs)
+        # Fields of a flattened object are resolved from its parent, so the type built
+        # in a flattened context cannot be shared with normal uses of the same class
+        flattened = getattr(self, "get_flattened", None)
 
         @wraps(factory.factory)
         def name_cache(
@@ -232,13 +235,14 @@ def cache_type(method: Method) -> Method:
             # Method is in cache key because scalar types will have the same method,
             # and then be shared by both visitors, while input/output types will have
             # their own cache entry.
-            if (name, method, description) in self._cache_by_name:
-                tp, cached_args = self._cache_by_name[(name, method, description)]
+            cache_key = (name, method, description, flattened)
+            if cache_key in self._cache_by_name:
+                tp, cached_args = self._cache_by_name[cache_key]
                 if cached_args == (args, kwargs):
                     return tp
             tp = graphql.GraphQLNonNull(factory.factory(name, description))
             # Don't put args in cache in order to avoid hashable issue
-            self._cache_by_name[(name, method, description)] = (tp, (args, kwargs))
+            self._cache_by_name[cache_key] = (tp, (args, kwargs))
             return tp
 
         return replace(factory, factory=name_cache)
@@ -268,7 +272,7 @@ class SchemaBuilder(
         self.id_type = id_type
         self.is_id = is_id or (lambda t: False)
         self._cache_by_name: Dict[
-            Tuple[str, Callable, Optional[str]],
+            Tuple[str, Callable, Optional[str], Optional[Callable]],
             Tuple[graphql.GraphQLNonNull, Tuple[tuple, dict]],
         ] = {}
 
